@@ -119,6 +119,7 @@ class Check(PropertyCheck):
                 yield X.gen_schedule(rng, base, "bytes")
 
     def impl(self, case):
+        case = X.normalize_causality(case)
         whole = X.run(case, whole=True)
         seg = X.run(case)
         (sw, cw), (ss, cs) = semantic(whole), semantic(seg)
